@@ -17,8 +17,8 @@ import itertools
 import time
 from fractions import Fraction
 
-from .. import bounded, common, spec
-from ..common import PROVED, REFUTED, Report, res, run_pool
+from .. import bounded, common, pyvc, spec
+from ..common import PROVED, REFUTED, UNDECIDED, Report, res, run_pool
 
 
 def arg_decl(n):
@@ -281,6 +281,60 @@ def job_simon(a):
     return out
 
 
+def job_struct_opaque(a):
+    """Structural contract of the three constructors for EVERY oracle circuit: the black box is a QlassF whose circuit holds OPAQUE gate tokens
+    (C14's Token: any inspection of a gate raises), of every length 0..L with every wire assignment over the m qubits, result qubit r anywhere
+    above the n argument qubits.
+      ensures  circuit = [barrier] H(0..n-1) <prep on r> [barrier] <the oracle's gates: the same objects, same wires, same order> [barrier] H(0..n-1)
+               with prep = X,H (Deutsch-Jozsa) / H,Z (Bernstein-Vazirani) / nothing (Simon); num_qubits = the oracle's; output_qubits = [0..n-1];
+               the oracle's circuit (gates, gates_computed, qubit_map) is unchanged and shares no list with the algorithm's circuit."""
+    alg_name, n, extra, L = a
+    from qlasskit.algorithms import BernsteinVazirani, DeutschJozsa, Simon
+    from qlasskit.ast2logic.typing import Arg
+    from qlasskit.qlassfun import QlassF
+    from qlasskit.types import Qint
+    from . import c14
+    Alg = dict(DeutschJozsa=DeutschJozsa, BernsteinVazirani=BernsteinVazirani, Simon=Simon)[alg_name]
+    prep = dict(DeutschJozsa=["X", "H"], BernsteinVazirani=["H", "Z"], Simon=[])[alg_name]
+    m = n + extra
+    name = f"C16.{alg_name}.constructor.structure[opaque oracle, {n} argument qubits, {m} qubits, <= {L} gates]"
+    base = dict(strength="proved-class", backend="pyvc-opaque", function=f"qlasskit.algorithms.{alg_name}.__init__")
+    cases = 0
+    aty = bool if n == 1 else Qint[n]
+    for r in range(n, m):
+        for length in range(0, L + 1):
+            for ws in c14.wire_lists(m, length, 2):
+                oc = c14.mk_circuit(m, ws)
+                oc.qubit_map.clear()
+                for i in range(n):
+                    oc.qubit_map[f"a.{i}" if n > 1 else "a"] = i
+                oc.qubit_map["_ret"] = r
+                qf = QlassF("f", None, [Arg("a", aty, [f"a.{i}" for i in range(n)] if n > 1 else ["a"])], Arg("_ret", bool, ["_ret"]), [])
+                qf._qcircuit = oc
+                snap = c14.snapshot(oc)
+                try:
+                    p_ = c14.run_hooked(Alg, qf)
+                except pyvc.Unsupported as ex:
+                    return [res(name, UNDECIDED, detail=f"Unsupported: {ex}", **base)]
+                cases += 1
+                ok = p_.kind == "return"
+                det = None
+                if ok:
+                    alg = p_.value
+                    gs = [(type(g).__name__ if not isinstance(g, c14.Token) else c14.tag(g), list(w)) for g, w, _ in alg.circuit().gates
+                          if isinstance(g, c14.Token) or not g.is_nop()]
+                    exp = [("H", [i]) for i in range(n)] + [(k, [r]) for k in prep] + [(t, list(w)) for t, w, _ in snap[0]] + [("H", [i]) for i in range(n)]
+                    same_objs = [g for g, _, _ in alg.circuit().gates if isinstance(g, c14.Token)] == [g for g, _, _ in oc.gates]
+                    ok = (gs == exp and same_objs and alg.circuit().num_qubits == m and list(alg.output_qubits) == list(range(n)) and c14.snapshot(oc) == snap
+                          and alg.circuit().gates is not oc.gates and not ({id(w) for _, w, _ in alg.circuit().gates} & {id(w) for _, w, _ in oc.gates}))
+                    det = dict(observed=gs[:14], expected=exp[:14], oracle_unchanged=c14.snapshot(oc) == snap)
+                else:
+                    det = dict(observed=f"raises {p_.value!r}"[:200])
+                if not ok:
+                    return [res(name, REFUTED, replayed=True, replay=dict(call=f"{alg_name}(qf) with qf.circuit() = opaque gates on wires {[list(w) for w in ws]}, _ret on qubit {r}", **det), **base)]
+    return [res(name, PROVED, cases=cases, **base)]
+
+
 def balanced_tables(n):
     rows = range(1 << n)
     return [frozenset(c) for c in itertools.combinations(rows, (1 << n) // 2)]
@@ -306,6 +360,10 @@ def run(tier, only=None):
     bal4 = [frozenset(r.sample(range(16), 8)) for _ in range(6 if tier == "quick" else 40)]
     for t in [frozenset(), frozenset(range(16))] + bal4:
         jobs.append((job_dj, (4, sorted(t), "cmp")))
+    for alg_name in ("DeutschJozsa", "BernsteinVazirani", "Simon"):
+        for n in (1, 2, 3, 4):
+            for extra in (1, 2):
+                jobs.append((job_struct_opaque, (alg_name, n, extra, 2 if n <= 2 else 1)))
     for n in (1, 2, 3, 4, 5):
         for s in range(1 << n):
             if n >= 2:
